@@ -3,11 +3,11 @@ package main
 // Rules added after the second round of independently seeded changes.
 
 import (
-	"sort"
 	"fmt"
 	"go/ast"
 	"go/token"
 	"go/types"
+	"sort"
 	"strings"
 )
 
@@ -258,12 +258,19 @@ func closerClosesEveryWriter(c *Check, a *Anchors) {
 				continue
 			}
 			closed := map[*types.Var]bool{}
-			if fl, ok := ast.Unparen(r.Results[2]).(*ast.FuncLit); ok {
-				inspectDeep(fl.Body, func(m ast.Node) bool {
+			for _, cb := range closerBodies(c, fb) {
+				binfo := cb.body.Info()
+				inspectDeep(cb.body.Body, func(m ast.Node) bool {
 					if call, ok := m.(*ast.CallExpr); ok {
 						if sel, ok := ast.Unparen(call.Fun).(*ast.SelectorExpr); ok && strings.EqualFold(sel.Sel.Name, "close") {
-							if v := varOf(info, sel.X); v != nil {
+							if v := varOf(binfo, sel.X); v != nil {
 								closed[v] = true
+							}
+							// closer object: <receiver>.<field>.close() closes the variable the field was initialised from
+							if fs, ok := ast.Unparen(sel.X).(*ast.SelectorExpr); ok {
+								if v := cb.fields[fs.Sel.Name]; v != nil {
+									closed[v] = true
+								}
 							}
 						}
 					}
@@ -493,7 +500,7 @@ func isReflectValue(info *types.Info, e ast.Expr) bool {
 
 // errorsNotSwallowed (C16): a branch that has just established `err != nil` does not report success.
 var swallowReviewed = map[string]string{
-	"semver.NewVersion@task.(*Executor).doVersionChecks": "an unparsable build version (\"devel\") disables the upper-bound schema check by design; the Taskfile itself was already validated",
+	"semver.NewVersion@task.(*Executor).doVersionChecks":   "an unparsable build version (\"devel\") disables the upper-bound schema check by design; the Taskfile itself was already validated",
 	"fmt.Fprint@internal/output.(*prefixWriter).writeLine": "a failed write of the prefix bracket to the terminal drops the line; nothing the caller could do differs from the success case and the payload write's own error is still returned",
 }
 
@@ -1795,7 +1802,13 @@ func namespaceAlwaysPrepended(c *Check, a *Anchors) {
 	}
 	minfo := merge.Info()
 	var helper *FuncBody
-	for _, call := range callsIn(merge, true) {
+	var mergeGroup []*ast.CallExpr
+	for _, g := range c.P.groupOf(merge, 1) {
+		if g == merge || g.Decl.Recv == nil {
+			mergeGroup = append(mergeGroup, callsIn(g, true)...)
+		}
+	}
+	for _, call := range mergeGroup {
 		fn, ok := callee(minfo, call).(*types.Func)
 		if !ok || fn.Pkg() == nil || fn.Pkg().Path() != PkgAst {
 			continue
@@ -1803,7 +1816,9 @@ func namespaceAlwaysPrepended(c *Check, a *Anchors) {
 		for _, arg := range call.Args {
 			if fieldSel(minfo, arg, PkgAst, "Include", "Namespace") {
 				if d := c.P.DeclOf(fn); d != nil && d.Type.Results != nil && d.Type.Results.NumFields() == 1 {
-					helper = d
+					if tv, ok := minfo.Types[d.Type.Results.List[0].Type]; ok && types.TypeString(tv.Type, nil) == "string" && len(call.Args) == 2 {
+						helper = d
+					}
 				}
 			}
 		}
@@ -1828,7 +1843,7 @@ func namespaceAlwaysPrepended(c *Check, a *Anchors) {
 	}
 	// which parameter is the namespace: the one bound to Include.Namespace at the call sites
 	nsIdx := -1
-	for _, call := range callsIn(merge, true) {
+	for _, call := range mergeGroup {
 		if a.is(callee(minfo, call), helper) {
 			for i, arg := range call.Args {
 				if fieldSel(minfo, arg, PkgAst, "Include", "Namespace") {
@@ -2309,6 +2324,18 @@ func aliasFromLocalName(c *Check, a *Anchors) {
 		c.Errorf("alias-from-local-name: Tasks.Merge not found")
 		return
 	}
+	n := 0
+	ord := map[string]int{}
+	for _, scope := range c.P.groupOf(merge, 1) {
+		if scope != merge && scope.Decl.Recv != nil {
+			continue
+		}
+		n += aliasFromLocalNameIn(c, a, scope, ord)
+	}
+	c.Floor("alias-from-local-name", n, 4)
+}
+
+func aliasFromLocalNameIn(c *Check, a *Anchors, merge *FuncBody, ord map[string]int) int {
 	c.Fn(merge)
 	info := merge.Info()
 	// positions at which a field of the copied task is assigned a namespaced value
@@ -2348,7 +2375,6 @@ func aliasFromLocalName(c *Check, a *Anchors) {
 		return true
 	})
 	n := 0
-	ord := map[string]int{}
 	for _, call := range callsIn(merge, true) {
 		fn, ok := callee(info, call).(*types.Func)
 		if !ok || fn.Pkg() == nil || fn.Pkg().Path() != PkgAst || len(call.Args) != 2 {
@@ -2376,7 +2402,7 @@ func aliasFromLocalName(c *Check, a *Anchors) {
 		c.Decide(bad == "", "alias-from-local-name", ordinal(ord, "helper-call@"+fnDisplay(merge)), call.Pos(), "applied to a name of the included file",
 			"the namespacing helper is applied to `"+bad+"`, which this iteration has already rewritten with the include's namespace: the resulting alias is <alias>:<namespace>:<task> instead of <alias>:<task>")
 	}
-	c.Floor("alias-from-local-name", n, 4)
+	return n
 }
 
 // containerValuesNonNil (C16): a YAML null never becomes a nil element of an ordered container.
